@@ -494,3 +494,7 @@ def run(ctx, rep):
             c11.check_handlers(ctx, RuleProxy(rep, 'C12.H', 'handlers::'), kinds, cls)
     if nh < 25:
         rep.incomplete('C12.H', '*', '', f"only {nh} model classes found")
+    # C12.X — torch's Transform cache (cache_size=1) is keyed by tensor identity: after `requires_grad = True` or an in-place step the transformed value of the OLD graph is
+    # returned and the gradient with respect to x is missing (C11.X rule)
+    rep.rule('C12.X', "the transforms of TransformedParameters and tree models keep torch's identity-keyed cache off (C11.X rule)")
+    c11.check_transform_cache(ctx, RuleProxy(rep, 'C12.X', ''), floor=5)
